@@ -66,6 +66,7 @@ type simProc struct {
 	logFile  string
 	maxPos   int64
 	ticks    int
+	onDone   func()
 }
 
 type sim struct {
@@ -368,8 +369,15 @@ func (s *sim) start(p *simProc, kind string) (started, done bool) {
 	ch := make(chan struct{})
 	p.inflight[kind] = ch
 	f := s.body(p, kind)
+	onDone := p.onDone
+	p.onDone = nil
 	go func() {
 		defer close(ch)
+		defer func() {
+			if onDone != nil {
+				onDone() // at the instant the body returns, not when the harness next looks
+			}
+		}()
 		defer func() {
 			if r := recover(); r != nil {
 				s.recordPanic(p, kind, r)
@@ -782,4 +790,88 @@ func (s *sim) quiesce(resetup bool, maxRounds int) (rounds int) {
 		}
 	}
 	return rounds
+}
+
+// ---------------------------------------------------------------- recorded ticks
+
+// tickRec is what the coordination service and the fake servers showed around one
+// manager-loop iteration of one process.
+type tickRec struct {
+	p            *simProc
+	t0, t1       time.Time
+	stmt0, stmt1 int
+	mut0, mut1   int
+	stateBefore  appState
+	stateAfter   appState
+	lockBefore   string // lock owner identity when the tick began ("" none)
+	lockAfter    string
+	switchBefore *Switchover
+	maintBefore  *Maintenance
+	masterBefore string
+	activeBefore []string
+	recovBefore  []string
+	done         bool
+}
+
+func (s *sim) lockOwner() string {
+	v, ok := s.zkGet(pathManagerLock)
+	if !ok {
+		return ""
+	}
+	var o dcs.LockOwner
+	if json.Unmarshal([]byte(v), &o) != nil {
+		return ""
+	}
+	return o.Hostname
+}
+
+func (s *sim) currentSwitch() *Switchover {
+	var sw Switchover
+	if !s.zkJSON(pathCurrentSwitch, &sw) {
+		return nil
+	}
+	return &sw
+}
+
+func (s *sim) currentMaint() *Maintenance {
+	var m Maintenance
+	if !s.zkJSON(pathMaintenance, &m) {
+		return nil
+	}
+	return &m
+}
+
+// beginTick records the before-state and starts a tick of p (which may stay in flight).
+func (s *sim) beginTick(p *simProc) *tickRec {
+	if s.anyBusy(p) {
+		return nil
+	}
+	r := &tickRec{p: p, t0: time.Now(), stmt0: s.w.StmtLen(), mut0: s.zk.MutLen(), stateBefore: p.app.state, lockBefore: s.lockOwner(),
+		switchBefore: s.currentSwitch(), maintBefore: s.currentMaint(), masterBefore: s.masterKey(), activeBefore: s.activeNodes(),
+		recovBefore: s.zk.Children(simNS + "/" + pathRecovery)}
+	p.onDone = func() { s.endTick(r) }
+	s.start(p, "tick")
+	return r
+}
+
+func (s *sim) endTick(r *tickRec) {
+	r.done, r.t1, r.stmt1, r.mut1, r.stateAfter, r.lockAfter = true, time.Now(), s.w.StmtLen(), s.zk.MutLen(), r.p.app.state, s.lockOwner()
+}
+
+// finishTick advances virtual time until the tick has completed.
+func (s *sim) finishTick(r *tickRec) {
+	if r == nil || r.done {
+		return
+	}
+	for i := 0; !r.done; i++ {
+		s.advance(time.Second)
+		if i > 6000 {
+			s.t.Fatalf("harness: tick of %s did not finish", r.p.id)
+		}
+	}
+}
+
+// poll completes r if its tick has finished meanwhile.
+func (s *sim) poll(r *tickRec) bool {
+	return r == nil || r.done
 }
